@@ -5,7 +5,6 @@ import (
 	"fmt"
 
 	"github.com/openacid/slim/trie"
-	"github.com/openacid/slim/xsimrt"
 )
 
 // C11 — a SlimTrie is safely shareable between concurrent readers.
@@ -439,7 +438,7 @@ func runSoloCapped(st *trie.SlimTrie, u *Unit) (string, int64) {
 	var n int64
 	capped := false
 	rec := soloSiteRec
-	xsimrt.Hook = func(site int) {
+	setHook(func(site int) {
 		n++
 		liveTicks++
 		if rec != nil {
@@ -449,9 +448,9 @@ func runSoloCapped(st *trie.SlimTrie, u *Unit) (string, int64) {
 			capped = true
 			panic(abortUnit{"solo-cap"})
 		}
-	}
+	})
 	out := u.run(st, nil)
-	xsimrt.Hook = nil
+	setHook(nil)
 	return out, n
 }
 
@@ -471,9 +470,16 @@ func unitCap(solo int64) int64 {
 	return c
 }
 
+// errAborted: the simulator unwound the call (step budget), not the code under test.
+var errAborted = fmt.Errorf("call abandoned by the simulator")
+
 func safeMarshal(st *trie.SlimTrie) (b []byte, err error) {
 	defer func() {
 		if r := recover(); r != nil {
+			if _, ok := r.(abortUnit); ok {
+				b, err = nil, errAborted
+				return
+			}
 			b, err = nil, fmt.Errorf("panic: %v", r)
 		}
 	}()
